@@ -125,6 +125,32 @@ def build_coq(timeout=3000, target=None):
         lock.close()
 
 
+
+def case_modules(pid):
+    """.vo targets of every TV module that the check's generated case files import (`From TV Require Import ...` inside
+    the string constants of harness/props/<pid>.py and harness/lib_*.py).  They need not be in the cone of
+    Properties/<pid>.v (e.g. Num/InstF.v is used for evaluation only), so the check builds them explicitly."""
+    import glob
+    main = os.path.join(VERIF, 'harness', 'props', f'{pid}.py')
+    src = open(main).read() if os.path.exists(main) else ''
+    files = [main] + [f for f in sorted(glob.glob(os.path.join(VERIF, 'harness', '*.py')))
+                      if os.path.basename(f)[:-3] in src and os.path.basename(f) not in ('common.py', '__init__.py')]
+    mods = set()
+    for f in files:
+        if not os.path.exists(f):
+            continue
+        txt = open(f).read()
+        for m in re.finditer(r'From TV Require (?:Import|Export)\s+([A-Za-z0-9_.\s\\n\'"+()]+?)\.(?:\\n|\s|\'|"|$)', txt):
+            for w in re.findall(r'[A-Z][A-Za-z0-9_]*(?:\.[A-Z][A-Za-z0-9_]*)+', m.group(1)):
+                mods.add(w)
+    out = []
+    for w in sorted(mods):
+        rel = w.replace('.', '/') + '.v'
+        if os.path.exists(os.path.join(COQ, rel)):
+            out.append(rel[:-2] + '.vo')
+    return out
+
+
 def theorem_names(relpath):
     txt = open(os.path.join(COQ, relpath)).read()
     txt = re.sub(r'\(\*.*?\*\)', '', txt, flags=re.S)
